@@ -1501,6 +1501,24 @@ pub fn handle_trailer(
         }
     }
 
+    if !matches!(kawa.body_size, BodySize::Length(_)) {
+        // The body ends where the trailer section starts. No DATA frame said
+        // so (END_STREAM rides on this HEADERS frame), and an HTTP/1.1 writer
+        // has to close the chunked body with its last-chunk line before the
+        // trailer fields: without it they are read as a chunk-size line.
+        // Same shape as the H1 parser leaves behind; the H2 converter ignores
+        // a Flags block that ends neither headers nor stream.
+        kawa.blocks.insert(
+            blocks_before_trailers,
+            Block::Flags(Flags {
+                end_body: true,
+                end_chunk: false,
+                end_header: false,
+                end_stream: false,
+            }),
+        );
+    }
+
     kawa.push_block(Block::Flags(Flags {
         end_body: false,
         end_chunk: false,
